@@ -209,6 +209,7 @@ type Explorer struct {
 	started     time.Time
 	sampleSeen  int
 	tier        int
+	initial     []decision
 }
 
 type assertStat struct {
@@ -222,9 +223,16 @@ func NewExplorer(prog *ssa.Program, entry *ssa.Function, cfg Cfg) *Explorer {
 	return ex
 }
 
+// RunPrefix explores only the path selected by a decision prefix (and what
+// branches off after it, up to MaxPaths).
+func (ex *Explorer) RunPrefix(prefix []decision) {
+	ex.initial = prefix
+	ex.Run()
+}
+
 func (ex *Explorer) Run() {
 	ex.started = time.Now()
-	ex.queue = []workItem{{}}
+	ex.queue = []workItem{{prefix: ex.initial}}
 	var wg sync.WaitGroup
 	n := ex.cfg.Workers
 	if n < 1 {
